@@ -203,6 +203,7 @@ def main(argv=None):
     # ---- findings recorded earlier: replay each one, report it as KNOWN-FINDING
     known = load_known()
     exit_code = 0
+    n_regression = 0
     for k in known:
         if k.get("status") == "open" and k.get("property") == prop:
             line = f"KNOWN-FINDING: property={prop} {k['id']}: {k['what']}"
@@ -221,6 +222,18 @@ def main(argv=None):
                                        "violation": res["violation"], "digest": res["digest"],
                                        "hashseed": res.get("hashseed")})
             print(line)
+        elif k.get("status") == "fixed" and k.get("property") == prop and k.get("replay"):
+            # the recorded history of a repaired defect: it must hold now, and is a violation if it ever fails again
+            rp = os.path.join(ROOT, k["replay"])
+            _, res = replay_file(rp)
+            n_regression += 1
+            if "error" in res:
+                errors.append({"error": f"replay of repaired finding {k['id']} failed: {res['error']}",
+                               "stderr": res.get("stderr", "")})
+            elif res["violation"] is not None:
+                violations.append({"rule": res["violation"]["rule"], "sig": res["violation"]["sig"], "path": rp,
+                                   "index": -1, "violation": res["violation"], "digest": res["digest"],
+                                   "hashseed": res.get("hashseed")})
 
     # ---- violations found by this batch: confirm by replay in a fresh interpreter, classify
     reported = 0
@@ -269,7 +282,7 @@ def main(argv=None):
 
     if not a.no_evidence and exit_code != 2:
         write_evidence(prop, tier, seed, nruns, total, samples, wall_s, reported, blocks, runs,
-                       suppressed, n_harness)
+                       suppressed, n_harness, n_regression)
     stop = os.path.join(outdir, f"STOP-{prop}-{seed}")
     if os.path.exists(stop):
         os.remove(stop)
@@ -280,7 +293,8 @@ def main(argv=None):
     return exit_code
 
 
-def write_evidence(prop, tier, seed, nruns, total, samples, wall_s, nviol, blocks, runs, suppressed, n_harness):
+def write_evidence(prop, tier, seed, nruns, total, samples, wall_s, nviol, blocks, runs, suppressed, n_harness,
+                   n_regression=0):
     from .worlds import describe
 
     info = describe(prop)
@@ -307,6 +321,7 @@ def write_evidence(prop, tier, seed, nruns, total, samples, wall_s, nviol, block
             "probes": dict(sorted(total.probes.items())),
             "distinct_transitions_all": len(total.transitions),
             "known_findings_hit": suppressed,
+            "recorded_histories_of_repaired_defects_replayed": n_regression,
             "runs_lost_to_harness_errors": n_harness,
             "real_components": info["real"],
             "stub_components": info["stubs"],
